@@ -1,7 +1,7 @@
 """C03 — regular-expression strings and `matches` agree with regex semantics.
 
  (1) Lean: Spec/Re.lean + `ends_iff_Matches`; Thm/C03.lean (range_table: the counted-repeat emit table of re.c is
-     equivalent to `range n m e`; vm soundness on the bytecode model; matches_sound_partial for the scan mode);
+     equivalent to `range n m e`; vm soundness on the bytecode model for every well-formed expression; matches_sound for the scan mode);
  (2) spec-level correspondence: generated regex ASTs (<= 12 nodes, all-greedy or all-lazy, classes, escapes, anchors,
      word boundaries, /i /s, nocase ascii wide fullword, atoms forced into groups / branches / counted repeats) are
      printed as YARA text, run through the real compiler+scanner (complete match list) and the compiled Lean spec;
@@ -22,11 +22,11 @@ MANIFEST = dict(
          "(ends_iff_Matches, incl. the closures of * + {n,m}) and the driver's evaluator computes it (driver_evaluates_spec); the prolog/repeat/split/epilog code shape of "
          "counted repeats denotes exactly e{n,m} for all n <= m (range_table, range_concat); forward-from-the-atom + exhaustive-backward-from-the-atom equals a whole match "
          "with atoms inside groups, alternation branches and + bodies (decompose); everything the VM model reports (callback lengths, *matches, also in the scan mode of "
-         "`matches`) comes from a reachable fiber at RE_OPCODE_MATCH (vm_reports_reachable, any bytecode); and on the code of the emit model the VM is SOUND for every expression "
-         "built from literals, ., \\w\\W\\s\\S\\d\\D, ^ $ \\b \\B, .{n,m}, concatenation, alternation, *, + and ? (greedy or lazy), bracket classes, byte mode, forward code, with "
-         "or without the scan mode (vm_sound_partial; matches_sound_partial: a true `matches` verdict implies a matching substring). "
-         "NOT proved: counted repeats e{n,m} of a non-dot body other than e? inside the VM proof (counter stack), wide mode, backward code, VM completeness with "
-         "epsilon-loops, atom extraction, Aho-Corasick. That gap is covered by SAMPLING on "
+         "`matches`) comes from a reachable fiber at RE_OPCODE_MATCH (vm_reports_reachable, any bytecode); and on the code of the emit model the VM is SOUND for EVERY well-formed expression "
+         "(WF: every RE_NODE kind incl. the empty alternative and counted repeats e{n,m} of every emit-table row - prolog copy, REPEAT_START/REPEAT_END loop with the counter on the "
+         "fiber stack, split + epilog - n <= m < 65536, greedy or lazy, nested in any way; code below the emitter's int16 jump range), byte mode, forward code, all buffers, start "
+         "positions and flags, with or without the scan mode (vm_sound; matches_sound: a true `matches` verdict implies a matching substring). "
+         "NOT proved: wide mode, backward code, the fast matcher, VM completeness (epsilon-loops, fiber limits), atom extraction, Aho-Corasick. That gap is covered by SAMPLING on "
          "every run: generated regexes (<= 12 nodes, all-greedy / all-lazy, anchors, word boundaries, classes, /i /s, nocase ascii wide fullword, atoms forced into groups, "
          "branches and repeats) x buffers (< 1024 bytes) through the real engine vs. the compiled Lean specification (complete match lists, `matches` verdicts through literal "
          "and external operands), the parser AST tie (incl. class bitmaps and greedy flags), the real bytecode through the C VM and the Lean VM model, the whole-expression code "
